@@ -262,7 +262,17 @@ func (r *Run) oneStep() {
 		}
 	}
 	if r.K.Reopen {
-		add(1, r.stepReopen)
+		if r.gate != nil && r.gate.isClosed() && r.rng.IntN(2) == 0 {
+			// close and reopen while flushables (memtables, large batches,
+			// flushable ingests) are still queued: they must come back from the WAL
+			addSafe(3, func() {
+				r.count("reopens_with_flush_gate_closed", 1)
+				r.stepReopen()
+				r.openGate()
+			})
+		} else {
+			add(1, r.stepReopen)
+		}
 	}
 	if r.K.Ingest {
 		w := 5
